@@ -82,6 +82,7 @@ theorem trace_frozen (c : Cfg) (ar aq : Nat) (s : S) (l : Label) (h : Inv c ar a
     · exact ⟨rfl, hcl⟩
     · exact ⟨rfl, hcl⟩
   | connClose => simp [step, connClose, hcl]
+  | terminate code => simp [step, terminateL, parked, hrun, hcl]
 
 /-- the worker is parked and only an event can wake it: which events are still possible -/
 theorem blocked_facts (c : Cfg) (ar aq : Nat) (s : S) (h : Inv c ar aq s) (hb : blocked s = true) :
@@ -118,7 +119,7 @@ theorem blocked_facts (c : Cfg) (ar aq : Nat) (s : S) (h : Inv c ar aq s) (hb : 
       · exact hh
       · rw [how] at hh; cases hh
     have hg : s.global = true := by
-      rcases hgl how hrq with hh | hh
+      rcases or3_nd (hgl how hrq) (not_direct_of_quiet h.k7 hcl hn) with hh | hh
       · exact hh
       · rw [hge] at hh; cases hh
     exact ⟨hcl, how, hg, hnf.1, hnf.2.1, hnf.2.2, hge, hrq, h.k16 hcl (by simp [hp, upPhase]), hrs, hup⟩
@@ -229,7 +230,8 @@ theorem timeout_run (c : Cfg) (ar aq : Nat) (s : S) (h : Inv c ar aq s) (hb : bl
   obtain ⟨hcl, how, hg, hurr, hur, hdr, hge, hrq, hrst, hrs, hup⟩ := blocked_facts c ar aq s h hb
   simp only [blocked, Bool.and_eq_true, Bool.not_eq_true', beq_iff_eq] at hb
   obtain ⟨⟨hrun, hp⟩, hn⟩ := hb
-  obtain ⟨hsr, hdir⟩ := h.k7 hcl
+  have hsr := (h.k7 hcl).1
+  have hdir : s.direct = false := not_direct_of_quiet h.k7 hcl hn
   have hpd : s.procDone = false := by
     cases hh : s.procDone with
     | false => rfl
@@ -266,6 +268,76 @@ theorem timeout_run (c : Cfg) (ar aq : Nat) (s : S) (h : Inv c ar aq s) (hb : bl
   obtain ⟨a1, a2, a3, a4, a5, a6, a7, a8, a9, a10, a11, a12, a13, a14, a15, a16⟩ := f1
   rw [timeout_step2 c h1 a1 a2 a3 a4 a5 a6 a7 a8 a9]
   have := timeout_step3 c { h1 with phase := .UpRecvHeader } (reasonToCode .UpstreamGlobalTimeout) a1 rfl a3 a4 a5 a7 a8 a10 a11 a12 a13
+  refine ⟨this.1, this.2.1, ?_⟩
+  rw [this.2.2]
+  simp only [a14, a15, a16]
+
+/-- first worker step after an accepted `TerminateStream`: the pending local reply is taken, the retry state is dropped
+(its slot given back) and the worker re-enters at `UpFilter` -/
+theorem terminate_step1 (c : Cfg) (g : S) (hrun : g.running = true) (hp : g.phase = .WaitNotify) (hn : g.notify = true)
+    (hcl : g.cleaned = false) (hur : g.upReset = false) (hdr : g.downReset = false) (hdir : g.direct = true)
+    (how : c.oneway = false) (hps : g.pass = 0) :
+    work c g = { g with direct := false, rs := none, retries := (rsReset c g).retries, pass := 1, phase := .UpFilter,
+                        notify := false } := by
+  unfold work
+  rw [if_neg (by simp [hrun])]
+  split
+  all_goals first
+    | (rename_i hh; rw [hp] at hh; exact absurd hh (by decide))
+    | skip
+  rw [if_pos hn]
+  rw [finishPhase_eq, processError_spec]
+  rw [if_neg (by simp [hcl]), if_neg (by simp [hur])]
+  unfold peTail
+  rw [if_neg (by simp [hdr]), if_pos (by simp [hdir])]
+  simp only []
+  rw [if_neg (by simp [how]), if_pos (by simp [hp])]
+  simp only [finishOf, reenter]
+  simp [hps, loopBudget, rsReset]
+
+/-- an accepted asynchronous `TerminateStream` on a parked worker completes the exchange in three worker steps -/
+theorem terminate_run (c : Cfg) (ar aq : Nat) (s : S) (code : Nat) (h : Inv c ar aq s) (hb : blocked s = true)
+    (hnr : s.resp.isSome = false) :
+    (work c (work c (work c (terminateL c s code)))).cleaned = true ∧
+    (work c (work c (work c (terminateL c s code)))).running = false ∧
+    (work c (work c (work c (terminateL c s code)))).trace =
+      ((terminateL c s code).trace ++ [Ev.dh code true]) ++ [Ev.log code (s.flags ||| DownStreamTerminate)] := by
+  obtain ⟨hcl, how, hg, hurr, hur, hdr, hge, hrq, hrst, hrs, hup⟩ := blocked_facts c ar aq s h hb
+  have hb' := hb
+  simp only [blocked, Bool.and_eq_true, Bool.not_eq_true', beq_iff_eq] at hb
+  obtain ⟨⟨hrun, hp⟩, hn⟩ := hb
+  have hsr := (h.k7 hcl).1
+  have hpd : s.procDone = false := by
+    cases hh : s.procDone with
+    | false => rfl
+    | true => have := h.k5 hh; rw [hcl] at this; cases this
+  have hps := h.k25 hcl how hrs
+  have et : terminateL c s code =
+      { resetUpstream c s with
+        urr := true, perTry := false, global := false, flags := s.flags ||| DownStreamTerminate,
+        respCode := code, statusVar := some code, resp := some ⟨false, false⟩, direct := true, notify := true } := by
+    unfold terminateL
+    rw [if_neg (by simp [parked, hrun, hp, hn]), if_neg (by simp [hnr]), if_neg (by simp [hcl]), if_neg (by simp [hurr])]
+  generalize hgdef : terminateL c s code = g at et ⊢
+  have fg : g.running = true ∧ g.phase = .WaitNotify ∧ g.notify = true ∧ g.cleaned = false ∧ g.upReset = false ∧
+      g.downReset = false ∧ g.direct = true ∧ g.pass = 0 ∧ g.setupRetry = false ∧ g.procDone = false ∧
+      g.up.isSome = true ∧ g.reqSent = true ∧ g.flags = s.flags ||| DownStreamTerminate ∧ g.respCode = code ∧
+      g.statusVar = some code ∧ g.resp = some ⟨false, false⟩ := by
+    subst et
+    simp [hrun, hp, hcl, hsr, hur, hdr, hps, hpd, hup, hrq]
+  obtain ⟨g1, g2, g3, g4, g5, g6, g7, g8, g9, g10, g11, g12, g13, g14, g15, g16⟩ := fg
+  rw [terminate_step1 c g g1 g2 g3 g4 g5 g6 g7 how g8]
+  generalize hh1 : ({ g with
+    direct := false, rs := none, retries := (rsReset c g).retries, pass := 1, phase := .UpFilter, notify := false } : S) = h1
+  have f1 : h1.running = true ∧ h1.phase = .UpFilter ∧ h1.cleaned = false ∧ h1.upReset = false ∧ h1.downReset = false ∧
+      h1.direct = false ∧ h1.setupRetry = false ∧ h1.procDone = false ∧ h1.up.isSome = true ∧ h1.rs = none ∧
+      h1.resp = some ⟨false, false⟩ ∧ h1.reqSent = true ∧ h1.statusVar = some code ∧
+      h1.respCode = code ∧ h1.flags = s.flags ||| DownStreamTerminate ∧ h1.trace = g.trace := by
+    subst hh1
+    simp [g1, g4, g5, g6, g9, g10, g11, g12, g13, g14, g15, g16]
+  obtain ⟨a1, a2, a3, a4, a5, a6, a7, a8, a9, a10, a11, a12, a13, a14, a15, a16⟩ := f1
+  rw [timeout_step2 c h1 a1 a2 a3 a4 a5 a6 a7 a8 a9]
+  have := timeout_step3 c { h1 with phase := .UpRecvHeader } code a1 rfl a3 a4 a5 a7 a8 a10 a11 a12 a13
   refine ⟨this.1, this.2.1, ?_⟩
   rw [this.2.2]
   simp only [a14, a15, a16]
